@@ -233,31 +233,34 @@ def index_by_enumeration(n, cx, body, N):
     import itertools
     facts = getattr(cx, "facts", None)
     base = hir.simp(n["e"])
-    if facts is None or N is None or base.get("k") != "def":
+    if facts is None or N is None:
         return None
-    sig = body.get("sig", "")
+    if base.get("k") == "def":
+        hook, what = "index:" + base["path"], base["path"]
+    elif hir.place_str(base) is not None:
+        hook, what = "load:" + hir.place_str(base), hir.place_str(base)       # an array-typed place (its length is in its type)
+    else:
+        return None
     ps = body.get("params", [])
     doms = []
     for p_ in ps:
         if p_.get("k") != "pbind":
             return None
         vs = _enum_variants(facts, p_.get("ty"))
-        if vs is None:
-            return None
-        doms.append(vs)
+        doms.append([("enum", v) for v in vs] if vs is not None else [("sym", p_.get("name"))])   # other parameters stay symbolic
     total = 1
     for d in doms:
         total *= len(d)
-    if not doms or total > 512:
+    if total < 2 or total > 512:
         return None
     seen = []
     try:
         for combo in itertools.product(*doms):
-            ev = abseval.Evaluator(facts, cx.crate, {"index:" + base["path"]: lambda a: (seen.append(a[0]), ("sym", "element"))[1]},
+            ev = abseval.Evaluator(facts, cx.crate, {hook: lambda a: (seen.append(a[0]), ("sym", "element"))[1]},
                                    inline_crates=INLINE_CRATES)
             env = abseval.Env()
             for p_, v in zip(ps, combo):
-                env[p_["name"]] = ("enum", v)
+                env[p_["name"]] = v
             try:
                 ev.ev(body["hir"], env)
             except abseval.Return:
@@ -266,7 +269,7 @@ def index_by_enumeration(n, cx, body, N):
         return None
     if not seen or not all(v[0] == "int" and 0 <= v[1] < N for v in seen):
         return None
-    return (f"evaluated for all {total} combination(s) of the enum parameters: the indices formed into {base['path']} are "
+    return (f"evaluated for all {total} combination(s) of the enum parameters: the indices formed into {what} are "
             f"{sorted({v[1] for v in seen})[0]}..={sorted({v[1] for v in seen})[-1]}, table length {N}")
 
 
@@ -550,7 +553,12 @@ def rule_links(facts, rep):
             if hir.is_call(n, "anstyle_lossy::palette::Palette::get_ansi256_ref"):
                 a = hir.simp(n["args"][1])
                 ok = ok and a.get("k") == "local" and hir.is_call(hir.simp(dict(panics.Ctx(b, {}).lets).get((a["name"], a.get("id")), {})), "anstyle::color::Ansi256Color::from_ansi")
-    rep.check(ok and len(cs) == 2, "allowlist", "anstyle_lossy::palette::Palette::get_ansi256_ref", "index-is-from_ansi(color)", f"{sorted(cs)}", "")
+    has_fn = any(x["path"] == "anstyle_lossy::palette::Palette::get_ansi256_ref" for x in facts.bodies("anstyle_lossy"))
+    if has_fn:
+        rep.check(ok and len(cs) == 2, "allowlist", "anstyle_lossy::palette::Palette::get_ansi256_ref", "index-is-from_ansi(color)", f"{sorted(cs)}", "")
+    else:
+        rep.ok("allowlist", "anstyle_lossy::palette::Palette::get_ansi256_ref", "index-is-from_ansi(color)",
+               "the helper no longer exists: its allowlist entry matches no site, and the sites that replaced it are decided on their own", "")
     # the parser's guards that the Params / intermediates / OSC allowlist entries cite (same rules as C02, evaluated here too)
     from rules import C13
     import core
